@@ -1,6 +1,5 @@
 (* Vocabulary for the theorems that tie the GENERATED x/stream InitGenesis (GeneratedStreamKeeper.v) to the model of genesis
-   import (model/Genesis.v: import_str).  Definitions only.  (ExportGenesis of x/stream iterates with a callback and is not
-   translated; the model's export_str is tied by the correspondence check.) *)
+   import (model/Genesis.v: import_str).  Definitions only.  (ExportGenesis of x/stream is translated too: proofs/GeneratedStreamExportEq.v, props/C15generatedstr2.v.) *)
 From MC Require Import lib.Prelude lib.AMap lib.GoSdk GeneratedFns GeneratedStreamTypes model.Bank model.Stream model.Genesis
   model.StreamKeeperPrims GeneratedStreamKeeper.
 
